@@ -20,9 +20,11 @@ Inductive ctr := CHit | CMiss | CSoft.
 Inductive mv :=
 | MKey (k : K) | MVal (v : V) | MLink (i : id) | MItem (k : K) (v : V)
 | MNone | MMissing | MSelf
+| MNotImplemented
 | MMap (l : list (K * V))        (* a mapping other than self: keys() and [k] *)
 | MSeq (l : list (K * V))        (* an iterable of pairs *)
-| MBool (b : bool) | MNat (n : nat).
+| MBool (b : bool) | MNat (n : nat)
+| MObj (q : pcache).             (* another cache object (the one copy() builds) *)
 
 Inductive mexpr :=
 | XVar (n : nat) | XParam (p : param) | XMissing | XSelf
@@ -38,12 +40,22 @@ Inductive mexpr :=
 | XHelperMove (e : mexpr)                 (* the move-to-front helper *)
 | XHelperEvict (a b : mexpr)              (* the evicting helper *)
 | XIndex (m e : mexpr)                    (* m[e], m a mapping *)
-| XHasKeys (e : mexpr).                   (* callable(getattr(e, 'keys', None)) *)
+| XHasKeys (e : mexpr)                    (* callable(getattr(e, 'keys', None)) *)
+| XSuperContains (e : mexpr)              (* super().__contains__(e) *)
+| XSuperLen                               (* super().__len__() *)
+| XSuperEq (e : mexpr)                    (* super().__eq__(e) : dict.__eq__ *)
+| XSelfEq (e : mexpr)                     (* self == e : the == operator, i.e. __eq__ and Python's NotImplemented fallback *)
+| XNot (e : mexpr)
+| XTrue
+| XNewLike                                (* self.__class__(max_size=self.max_size, on_miss=self.on_miss) *)
+| XFlattenTail                            (* self._get_flattened_ll()[1:] *)
+| XSelfCopy.                              (* self.copy() *)
 
 Inductive mtarget :=
 | TV (n : nat)
 | TSelfItem (e : mexpr)                   (* self[e] = ... *)
-| TLinkVal (e : mexpr).                   (* e[VALUE] = ... *)
+| TLinkVal (e : mexpr)                    (* e[VALUE] = ... *)
+| TObjItem (n : nat) (e : mexpr).         (* x[e] = ...  for a local x holding another cache *)
 
 Inductive mstmt :=
 | MAssign (ts : list mtarget) (e : mexpr)
@@ -53,6 +65,7 @@ Inductive mstmt :=
 | MSuperClear                             (* super().clear() *)
 | MHelperAdd (a b : mexpr) | MHelperRemove (e : mexpr) | MHelperInit
 | MCallSetitem (a b : mexpr)              (* setitem(a, b) where setitem = self.__setitem__ *)
+| MCallUpdate (e : mexpr)                 (* self.update(e) *)
 | MTry (body handler orelse : list mstmt) (* try / except KeyError / else *)
 | MIf (e : mexpr) (a b : list mstmt)
 | MWith (body : list mstmt)               (* with self._lock: *)
@@ -221,6 +234,44 @@ Fixpoint eval (c : cfg) (ps : param -> mv) (s : mstate) (e : mexpr) {struct e} :
       | (s1, EV _) => (s1, EStuck)
       | other => other
       end
+  | XSuperContains e1 =>
+      match eval c ps s e1 with
+      | (s1, EV (MKey k)) => (s1, EV (MBool (d_mem (ps_store (ms_cache s1)) k)))
+      | (s1, EV _) => (s1, EStuck)
+      | other => other
+      end
+  | XSuperLen => (s, EV (MNat (length (ps_store p))))
+  | XSuperEq e1 =>
+      (* dict.__eq__(self, other): a dict (or dict subclass) is compared item by item, anything else
+         gives NotImplemented *)
+      match eval c ps s e1 with
+      | (s1, EV (MMap d)) => (s1, EV (MBool (dict_eq (ps_store (ms_cache s1)) d)))
+      | (s1, EV MSelf) => (s1, EV (MBool true))
+      | (s1, EV _) => (s1, EV MNotImplemented)
+      | other => other
+      end
+  | XSelfEq e1 =>
+      (* the == operator: LRI.__eq__ (the model's pcache_eq), and False when both sides say NotImplemented *)
+      match eval c ps s e1 with
+      | (s1, EV (MMap d)) => (s1, EV (MBool (pcache_eq (ms_cache s1) d)))
+      | (s1, EV MSelf) => (s1, EV (MBool true))
+      | (s1, EV _) => (s1, EV (MBool false))
+      | other => other
+      end
+  | XNot e1 =>
+      match eval c ps s e1 with
+      | (s1, EV (MBool b)) => (s1, EV (MBool (negb b)))
+      | (s1, EV _) => (s1, EStuck)
+      | other => other
+      end
+  | XTrue => (s, EV (MBool true))
+  | XNewLike => (s, EV (MObj p_empty))
+  | XFlattenTail => (s, EV (MSeq (p_flatten (ps_ring p))))
+  | XSelfCopy =>
+      match pcopy_cache c p with
+      | (q, Ok _) => (s, EV (MObj q))
+      | (_, Raise ex) => (s, ERaise ex)
+      end
   end.
 
 (* one assignment target *)
@@ -245,6 +296,17 @@ Definition assign1 (c : cfg) (ps : param -> mv) (s : mstate) (t : mtarget) (x : 
       | (s1, EV _), _ => (s1, OStuckO)
       | (s1, ERaise ex), _ => (s1, ORaiseO ex)
       | (s1, EStuck), _ => (s1, OStuckO)
+      end
+  | TObjItem n e =>
+      match eval c ps s e, x, ms_env s n with
+      | (s1, EV (MKey k)), MVal v, MObj q =>
+          match psetitem c q k v with
+          | (q', Ok _) => (bind s1 n (MObj q'), ONormalO)
+          | (q', Raise ex) => (bind s1 n (MObj q'), ORaiseO ex)
+          end
+      | (s1, EV _), _, _ => (s1, OStuckO)
+      | (s1, ERaise ex), _, _ => (s1, ORaiseO ex)
+      | (s1, EStuck), _, _ => (s1, OStuckO)
       end
   end.
 
@@ -359,6 +421,18 @@ Fixpoint exec (c : cfg) (ps : param -> mv) (st : mstmt) (s : mstate) {struct st}
               end
           | _, _ => (s2, OStuckO)
           end))
+  | MCallUpdate e =>
+      (* self.update(e): the model's update of an iterable of pairs / a mapping; with itself: nothing *)
+      of_er (eval c ps s e) (fun s1 v =>
+        match v with
+        | MSeq l | MMap l =>
+            match psetitems c (ms_cache s1) l with
+            | (p', Ok _) => (with_cache s1 p', ONormalO)
+            | (p', Raise ex) => (with_cache s1 p', ORaiseO ex)
+            end
+        | MSelf => (s1, ONormalO)
+        | _ => (s1, OStuckO)
+        end)
   | MTry body handler orelse =>
       match run body s with
       | (s1, ORaiseO KeyError) => run handler s1
